@@ -75,6 +75,9 @@ def judge(src, result, settings):
         def bad(what):
             pb = {"what": what, "code": cname, "lineno": lineno, "col": col,
                   "text": re.sub(r"0x[0-9a-f]+", "0x?", desc)[-600:]}
+            if what == "internal_error":
+                m = re.search(r"Internal error: (\w+)", desc)
+                pb["exc_type"] = m.group(1) if m else ""
             if what == "column-outside-line":
                 ln = lines[lineno - 1]
                 raw = ln.encode("utf-8")
